@@ -174,8 +174,11 @@ func (p *Predicate) UUID() uuid.UUID {
 	if p.anchor == nil {
 		buffer.WriteString("immutable")
 	} else {
+		// Seconds and nanoseconds are hashed separately: UnixNano() is only
+		// defined for instants between 1678 and 2262, anchors are not.
 		b := make([]byte, 16)
-		binary.PutVarint(b, p.anchor.UnixNano())
+		n := binary.PutVarint(b, p.anchor.Unix())
+		binary.PutVarint(b[n:], int64(p.anchor.Nanosecond()))
 		buffer.Write(b)
 	}
 
